@@ -14,6 +14,7 @@
   not speak about them), and no token ends in an index group `[n]` (D26 invariant).
 -/
 import YtkProofs.Pointer
+import YtkProofs.FuncsPtr
 
 namespace Ytk.C10
 open Ytk.Ptr
@@ -171,5 +172,111 @@ theorem eval_node_and_trail (p : Path) (d : Node) (h : ∀ t ∈ p, tokOk t = tr
   refine ⟨fun n hn => ?_, fun hn => by rw [eval_spec p d h, hn]⟩
   have h2 : (eval p d).2 = some n := by rw [eval_spec p d h, hn]
   exact ⟨h2, eval_trail p d n h2⟩
+/-! ## Translated functions (YtkModel/Generated/Funcs.lean, regenerated from the Go source on every
+    run by extract/translate.go): the translation EQUALS the hand-written model, for all inputs.
+    An edit of the Go function changes the regenerated definition and these stop checking. -/
+namespace Ytk.C10
+open Ytk.Generated
+
+theorem PropPath2Pointer_loop1_eq (p : List Ptr.PropSeg) (acc : String) :
+    Funcs.PropPath2Pointer_loop1 (p.map Ptr.segToGo) acc
+      = .ok (p.foldl (fun acc pc => acc ++ "/" ++ (if pc.isNum then toString pc.index else pc.value)) acc) := by
+  induction p generalizing acc with
+  | nil => simp [Funcs.PropPath2Pointer_loop1]
+  | cons s r ih =>
+    simp only [List.map_cons, Funcs.PropPath2Pointer_loop1, List.foldl_cons]
+    cases h : s.isNum <;> simp [Ptr.segToGo, h, ih, Go.fmtD_nat, Go.fmtS, String.append_assoc]
+
+/-- xform.PropPath2Pointer, as translated (its callee patch.MustParsePath is a parameter of the
+    translation, instantiated with the model's parser): the model's `propPath2Pointer`, for all
+    segment lists with non-negative indices (the model's index is a `Nat`). -/
+theorem PropPath2Pointer_generated_eq_model (p : List Ptr.PropSeg) :
+    Funcs.PropPath2Pointer Ptr.mustParseRes (p.map Ptr.segToGo)
+      = (match Ptr.propPath2Pointer p with
+         | .ok q => Go.Res.ok q
+         | _ => Go.Res.panic) := by
+  simp only [Funcs.PropPath2Pointer, PropPath2Pointer_loop1_eq, Go.Res.ok_bind, Ptr.propPath2Pointer, Ptr.mustParseRes]
+  cases Ptr.parseS _ <;> simp
+
+/-- patch.PathSegment.IsNumeric, as translated: (value, ok) is the model's `atoi` (all strings;
+    strconv.Atoi is the GoPrelude primitive `Go.atoi`, proved equal to the model's `atoiC`) -/
+theorem IsNumeric_generated_eq_model (t : String) :
+    (if (Funcs.IsNumeric t).2 then some (Funcs.IsNumeric t).1 else none) = Ptr.atoi t := by
+  rw [← Ptr.goAtoi_eq]
+  simp [Funcs.IsNumeric]
+
+/-- patch.Path.Parent, as translated: never panics and is the model's `parent` (all paths) -/
+theorem PathParent_generated_eq_model (p : List String) : Funcs.PathParent p = .ok (Ptr.parent p) := by
+  unfold Funcs.PathParent Ptr.parent
+  by_cases h : p.length ≤ 1
+  · have : Go.lenL p ≤ 1 := by simp only [Go.lenL]; omega
+    simp [h, this]
+  · have h1 : ¬ Go.lenL p ≤ 1 := by simp only [Go.lenL]; omega
+    have h2 : Go.lenL p - 1 = ((p.length - 1 : Nat) : Int) := by simp only [Go.lenL]; omega
+    simp [h, h1, h2, Go.sliceL_zero]
+
+/-- patch.Path.LastSegment, as translated: never panics and is the model's `lastSegment` -/
+theorem PathLastSegment_generated_eq_model (p : List String) :
+    Funcs.PathLastSegment p = .ok (Ptr.lastSegment p) := by
+  unfold Funcs.PathLastSegment Ptr.lastSegment
+  rcases List.eq_nil_or_concat p with h | ⟨pre, c, h⟩
+  · subst h; simp [Go.lenL_beq_zero]
+  · subst h
+    have h2 : Go.lenL (pre ++ [c]) - 1 = (pre.length : Int) := by simp [Go.lenL]
+    simp [Go.lenL_beq_zero, h2, Go.index_append_length]
+
+theorem PathString_loop2_eq (pre : List Char) : ∀ (suf : List Char) (sb : String) (fuel : Nat),
+    suf.length + 1 ≤ fuel →
+    Funcs.PathString_loop2 (pre ++ suf) fuel sb (pre.length : Int)
+      = .ok (sb ++ String.ofList (Ptr.encTok suf), ((pre ++ suf).length : Int)) := by
+  intro suf
+  induction suf generalizing pre with
+  | nil =>
+    intro sb fuel hf
+    cases fuel with
+    | zero => omega
+    | succ f => simp [Funcs.PathString_loop2, Go.lenL, Ptr.encTok]
+  | cons c r ih =>
+    intro sb fuel hf
+    cases fuel with
+    | zero => omega
+    | succ f =>
+      have hlt : (pre.length : Int) < Go.lenL (pre ++ c :: r) := by simp [Go.lenL]; omega
+      have ih' := ih (pre ++ [c]) 
+      simp only [List.append_assoc, List.singleton_append, List.length_append, List.length_singleton, Int.natCast_add, Int.natCast_one] at ih'
+      simp only [Funcs.PathString_loop2, hlt, decide_true, if_true, Go.index_append_length, Go.Res.ok_bind]
+      have hf' : r.length + 1 ≤ f := by simp at hf; omega
+      by_cases h1 : c = '~'
+      · subst h1
+        simp [ih' _ f hf', Ptr.encTok, Ptr.encChar, String.append_assoc]
+        apply String.toList_inj.mp; simp [String.toList_append]
+      · by_cases h2 : c = '/'
+        · subst h2
+          simp [ih' _ f hf', Ptr.encTok, Ptr.encChar, String.append_assoc]
+          apply String.toList_inj.mp; simp [String.toList_append]
+        · simp [h1, h2, ih' _ f hf', Ptr.encTok, Ptr.encChar]
+          apply String.toList_inj.mp; simp [String.toList_append]
+
+theorem PathString_loop1_eq : ∀ (p : List String) (sb : String),
+    Funcs.PathString_loop1 p sb = .ok (sb ++ String.ofList (Ptr.ptrString (p.map String.toList)))
+  | [], sb => by simp [Funcs.PathString_loop1, Ptr.ptrString]
+  | t :: ts, sb => by
+    have h := PathString_loop2_eq [] t.toList (sb.push '/') (t.toList.length + 1) (Nat.le_refl _)
+    simp only [List.nil_append, List.length_nil, Int.natCast_zero] at h
+    have hl : (Go.lenL t.toList + 1).toNat = t.toList.length + 1 := by
+      simp only [Go.lenL]; omega
+    simp only [Funcs.PathString_loop1, Go.runes, hl, h, Go.Res.ok_bind, PathString_loop1_eq ts, List.map_cons, Ptr.ptrString]
+    congr 1
+    apply String.toList_inj.mp
+    simp [String.toList_append, String.toList_push]
+
+/-- patch.Path.String, as translated (range loop over the segments, index loop over the runes
+    with fuel len(rps)+1): never panics, never runs out of fuel, and is the model's `stringS` -/
+theorem PathString_generated_eq_model (p : List String) : Funcs.PathString p = .ok (Ptr.stringS p) := by
+  unfold Funcs.PathString Ptr.stringS
+  cases p with
+  | nil => simp [Go.lenL_beq_zero, Ptr.ptrString]
+  | cons t ts =>
+    simp [Go.lenL_beq_zero, PathString_loop1_eq]
 
 end Ytk.C10
